@@ -24,6 +24,34 @@ def write_replay(pid, name, payload):
     return os.path.relpath(p, VERIF)
 
 
+def generic_replay(pid, mod, rec, drv):
+    """Replay of a record that is not a stand-alone case (a step of a history, a drawn configuration): re-execute the run that
+    produced it - same seed, same tier, the CURRENT /repo - and look for the recorded failure (same kind, message and input).
+    A record without a failing input (broken obligation / correspondence) is replayed by the whole check."""
+    seed = int(rec.get("seed", 0) or 0)
+    tier = rec.get("tier", "quick") if rec.get("tier") in ("quick", "thorough") else "quick"
+    if rec.get("no_failing_input_found") or "input" not in rec:
+        import subprocess, tempfile
+        with tempfile.TemporaryDirectory(dir=os.path.join(VERIF, ".work")) as td:
+            p = subprocess.run([sys.executable, "-m", "harness.main", pid, tier], cwd=VERIF, capture_output=True, text=True,
+                               env=dict(os.environ, VERIF_SEED=str(seed), VERIF_EVIDENCE_DIR=td))
+        print(p.stdout[-1500:])
+        return p.returncode == 0
+    if hasattr(mod, "pregen"):
+        mod.pregen()
+    ctx = Ctx(pid, tier, seed, drv)
+    mod.run(ctx)
+    key = lambda f: (f.get("kind"), f.get("what"), json.dumps(jsonable(f.get("input")), sort_keys=True))
+    want = key(rec)
+    hits = [f for f in ctx.failures if key(f) == want]
+    for f in hits[:3]:
+        print(f["kind"], f["what"], "input=", json.dumps(jsonable(f["input"]))[:600], "impl=", str(f.get("impl"))[:300])
+    others = [f for f in ctx.failures if key(f) != want]
+    if others:
+        print("(%d other failures in this run, e.g. %s)" % (len(others), others[0]["what"]))
+    return not hits
+
+
 def main(argv):
     if len(argv) < 3:
         print(__doc__); return 2
@@ -36,6 +64,8 @@ def main(argv):
         drv = lean.Driver() if os.path.exists(lean.DRIVER) else None
         ctx = Ctx(pid, "quick", seed, drv)
         ok = mod.replay(ctx, rec)
+        if ok is None:
+            ok = generic_replay(pid, mod, rec, drv)
         print("replay %s: %s" % (argv[3], "property holds on this input now" if ok else "STILL FAILS"))
         return 0 if ok else 1
     tier = argv[2]
@@ -92,10 +122,21 @@ def main(argv):
                           harness_line="%s:%s %s" % (last_harness[0].filename, last_harness[0].lineno, last_harness[0].line) if last_harness else "",
                           cases_before=ctx.evaluations),
                      impl="".join(traceback.format_exception(type(e), e, e.__traceback__))[-1500:])
-        else:
+        elif "/harness/lean.py" in inner or isinstance(e, (MemoryError, KeyboardInterrupt)):
+            # infrastructure (model driver, resources): not a statement about the code
             traceback.print_exc()
             print("harness error (exit 2)")
             return 2
+        else:
+            # the check's own code could not digest what the implementation returned (an array where a time series is promised, a
+            # result of another length, ...): on the unchanged tree every such path has been exercised, so this is a property
+            # failure of the code under test, reported with the traceback as its replay
+            traceback.print_exc()
+            last_harness = [f for f in tb if "/harness/" in f.filename][-1:]
+            ctx.fail("oracle", "the implementation's result could not be evaluated by the check (%s: %s)" % (type(e).__name__, str(e)[:200]),
+                     dict(level="unevaluable", harness_line="%s:%s %s" % (last_harness[0].filename, last_harness[0].lineno, last_harness[0].line) if last_harness else "",
+                          cases_before=ctx.evaluations),
+                     impl="".join(traceback.format_exception(type(e), e, e.__traceback__))[-1500:])
     oracle_f = [f for f in ctx.failures if f["kind"] == "oracle"]
     corr_f = [f for f in ctx.failures if f["kind"] == "corr"]
     # leanchecker in thorough
